@@ -247,6 +247,10 @@ func runSigCase(ta *TestApp, seed uint64, idx int, rep *Report, profile string) 
 			link, hasLink := myLinks[H(ref)]
 			if !hasLink {
 				link = links[0]
+				if rng.Bool() {
+					link = "" // no link is published for the reference: a signature over the payload with an empty link must not verify either
+					rep.Count("store.signature_over_an_empty_link_while_none_is_published")
+				}
 			}
 			payload := H(addr + ":" + ref + ":" + link)
 			sig := base64.StdEncoding.EncodeToString(id.sign([]byte(payload)))
